@@ -15,6 +15,7 @@
 //     (gate "decide": the wrapped block header store holds the handler there;
 //     the call site is recognised by its line in blockmanager.go)
 //   - at the second getUncheckpointedCFHeaders of one round (gate "tip").
+//
 // The environment acts only while the handler is blocked at one of these
 // points, so that a run is a sequence of rounds and events as in the model.
 // The dispatcher delivers the scripted arrivals, waits until the handler has
@@ -64,7 +65,7 @@ type loopStep struct {
 	Note   string  `json:"note,omitempty"`
 }
 
-const loopDeadline = 12 * time.Second
+const loopDeadline = 20 * time.Second
 
 // loopMaxPauses bounds the number of failed attempts (3 s pauses of the real
 // handler) one case may spend; the rest of its script is dropped.
@@ -911,6 +912,33 @@ func genL(id int, seed int64, r *rand.Rand) *spec {
 		_ = sleeps
 	}
 	sp.Steps = append(sp.Steps, loopStep{Kind: "round", Fetch: "all"})
+	// peers that are not honest may connect late or leave
+	var others []int64
+	for _, p := range sp.Peers {
+		h := false
+		for _, id := range sp.Honest {
+			h = h || id == p.ID
+		}
+		if !h {
+			others = append(others, p.ID)
+		}
+	}
+	if len(others) > 0 && r.Intn(3) == 0 {
+		q := others[r.Intn(len(others))]
+		at := 1 + r.Intn(len(sp.Steps)-1)
+		kind := "leave"
+		if r.Intn(2) == 0 {
+			kind = "connect"
+			for _, p := range sp.Peers {
+				if p.ID != q {
+					sp.Conn = append(sp.Conn, p.ID)
+				}
+			}
+		}
+		steps := append([]loopStep{}, sp.Steps[:at]...)
+		steps = append(steps, loopStep{Kind: kind, Peer: q})
+		sp.Steps = append(steps, sp.Steps[at:]...)
+	}
 	return sp
 }
 
